@@ -27,8 +27,8 @@ CHECKS = {
  "C17": ("exploration", "exhaustive product of host x port x key-variant x caps menus through constructor and parser paths, against independent three-valued IP/port recognisers; per entry a call history (result kept / caller overwrites its result / fresh lookup); plus bounded-exhaustive string spaces: every decimal port 0..70000 in four spellings, every string up to length 4 (thorough 7 / 6) over an 8-symbol port alphabet and a 12-symbol host alphabet, every dotted quad over a 13-value octet menu",
          "Full product of a 50-host and 34-port menu plus key variants and caps; every static-key/IV length 0..40.",
          "Strings outside the menus are not enumerated; Unspecified forms only bound by the consistency clauses."),
- "C18": ("model_checking", "stateless preemption-bounded exhaustive exploration of thread interleavings of the REAL code under a hand-written cooperative scheduler (statement-level yield points inserted into every library file by an AST instrumenter applied as a go build -overlay), with deep snapshots of receiver graph + all package-level variables; plus a per-statement mutation analysis and a separate free-running -race pass",
-         "For every structure type, every unordered pair of read-only operations on one shared value is run under every schedule with at most 1 preemption (2 where an operation was seen writing; thorough: 2 everywhere + triples); each schedule must reproduce the solo results and leave the shared snapshot unchanged. Step 1 hashes the shared snapshot at every statement of each operation, so even a transient write-and-restore is a violation. The race detector pass catches same-value writes the value oracle cannot see.",
+ "C18": ("model_checking", "stateless preemption-bounded exhaustive exploration of thread interleavings of the REAL code under a hand-written cooperative scheduler (statement-level yield points inserted into every library file by an AST instrumenter applied as a go build -overlay), with deep snapshots of receiver graph + all package-level variables; plus exhaustive first-operation histories on freshly built copies (step 0), a per-statement mutation analysis and a separate free-running -race pass",
+         "Step 0: for every value and every operation i a fresh copy runs i first, then the whole operation set; every answer must equal the one given when that operation is itself the first call (idempotent writes of read-only operations). For every structure type, every unordered pair of read-only operations on one shared value is run under every schedule with at most 1 preemption (2 where an operation was seen writing; thorough: 2 everywhere + triples); each schedule must reproduce the solo results and leave the shared snapshot unchanged. Step 1 hashes the shared snapshot at every statement of each operation, so even a transient write-and-restore is a violation. The race detector pass catches same-value writes the value oracle cannot see.",
          "Statement-level atomicity, sequential consistency; go-i2p/crypto and logrus internals are atomic; the -race pass is sampling (secondary guard). No hook is committed to /repo: the instrumentation is regenerated from the working tree at every run."),
  "C19": ("model_checking", "differential exhaustive exploration: every pair of equivalent entry points run on the whole bounded input space (E1 + operators + byte-walk) and on the full product of constructor argument menus; builder call sequences enumerated; all signature constructors swept over every type code -2..65537",
          "For each of 27 parser pairs and 6 constructor pairs, both entry points are executed on every input in the bounded space that lies in the pair's stated domain and must agree on acceptance, serialisation and remainder.",
@@ -42,7 +42,7 @@ CHECKS = {
  "C06": ("model_checking", "E1 over constructor argument tuples (model values within the deviation bound, all private-key representations, all insertion orders of option sets) driven through the real signing constructors; four-step oracle incl. an independent verifier",
          "Every value the signing constructors build in the bounded argument space must verify, survive Bytes()+parse with empty remainder, verify again, and be accepted by the independent verifier.",
          "Also explicit-state exploration of construction HISTORIES (all ordered pairs / core triples of constructor calls; every read-only method between construction and re-verification). Known findings: ECDSA keys cannot be verified by go-i2p/crypto (third party); LEASESET2_MIN_SIZE."),
- "C07": ("model_checking", "E1 over the identity generator x every API path x every single-byte variant (all positions), constructor-only identities (P-521, field-assembled), and explicit-state exploration of all call sequences (<= 3, thorough 5) over the hashing entry points incl. failing readers, against SHA-256 / independent base32+base64 codecs",
+ "C07": ("model_checking", "E1 over the identity generator x every API path x every single-byte variant (all positions), constructor-only identities (P-521, field-assembled), and explicit-state exploration of all call sequences (<= 3, thorough 5) over the hashing entry points incl. failing readers, and field-edit histories (copy-and-edit / in-place edit of an identity, both serialisation orders), against SHA-256 / independent base32+base64 codecs",
          "Every identity within the deviation bound through 8 API paths; for each, every byte position is modified (two values) and hash/address/equality re-evaluated. Exhaustive over positions and paths for the enumerated identities.",
          "SHA-256 from the standard library; base codecs from refmodel."),
  "C08": ("model_checking", "E1 over accepted encodings x overwrite histories on live parsed values (whole buffer, each region, each copy-documented accessor result), judged by a deep reflect+unsafe snapshot of the value graph",
@@ -52,7 +52,7 @@ CHECKS = {
          "All paths that can yield a Destination/RouterIdentity are driven with every known and boundary type pair; each axis is swept over the whole 16-bit space for the reader paths. A path that starts skipping the policy is reported with the path name.",
          "Declared types are read from the identity's own wire bytes as well as from its accessors; history paths: identities re-observed after blinding / AsDestination, certificate bytes rewritten through an accessor's slice, CertificateBuilder reuse. The path list is hand-maintained (registry scan reports new byte-consuming entry points in C04's evidence)."),
  "C10": ("exploration", "exhaustive sweep of all 65,536 type codes through every size lookup and behavioural table, against an independent spec table",
-         "Every one of the 65,536 signing and crypto codes is pushed through all lookups and length-dependent parsers; all supported pairs x 3 fills for the block layout. Exhaustive over the stated domain, so agreement is decided, not sampled.",
+         "Every one of the 65,536 signing and crypto codes is pushed through all lookups and length-dependent parsers; all supported pairs x 3 fills for the block layout, constructor padding of every length 0..400, and keys / padding replaced after a first serialisation (the block follows the current fields). Exhaustive over the stated domain, so agreement is decided, not sampled.",
          "Also one certificate object stepped through all codes (exported type fields) and result-independence histories of the size accessors. Trusts refmodel/tables.go (spec table) and the Go toolchain."),
  "C11": ("exploration", "exhaustive enumeration of all small Go maps over a string menu, every insertion order, the size-limit family and a byte-walk, against an independent reference encoder",
          "Every map with <= 3 entries over a 12-string menu, every insertion order of the pair list (n <= 5), payload sizes 65,520..65,550 and string lengths 254/255/256; exhaustive inside those domains.",
